@@ -64,7 +64,8 @@ def execute(sc, workdir):
     # bank_byte_alignment is given in rows: bytes = rows * ncols_words * bytes-per-word; resolve via a first elaboration
     top, mod, ps = core.build(dict(sc, ports=[dict()]))
     dw = top.ports[0].data_width
-    align = top.controller.interface.address_align
+    import math
+    align = int(math.log2(ps.nphases if mod.memtype == "SDR" else {"DDR": 4, "LPDDR": 4, "DDR2": 4, "DDR3": 8, "DDR4": 8}[mod.memtype]))   # from the configuration, not from the code under test
     g = mod.geom_settings
     if sc.get("bba_rows"):
         sc["ctrl"] = dict(sc.get("ctrl") or {}, bank_byte_alignment=sc["bba_rows"] * (2 ** (g.colbits - align)) * (dw // 8))
